@@ -36,7 +36,7 @@ def check_mapping(circ, mapped, what):
     if not ok:
         out.append(("structure", "%s: %s" % (what, detail)))
     U0, U1 = circ.U, mapped.U
-    if U1.shape != U0.shape or np.abs(U0 - U1).max() > 1e-8:
+    if U1.shape != U0.shape or np.abs(U0 - U1).max() > 1e-10:          # "to numerical precision": the library's own unitary_precision
         out.append(("unitary", "%s: mapped circuit differs from the original by %.3g" % (what, np.abs(U0 - U1).max() if U1.shape == U0.shape else -1)))
     if mapped.heralds != circ.heralds:
         out.append(("heralds", "%s: heralds %s, original %s" % (what, mapped.heralds, circ.heralds)))
